@@ -9,7 +9,7 @@
 
    The subject is a TRACE: the sequence of observations of ONE manager, in the order of a global
    sequence counter.  Observations of the kind "about to ..." are stamped BEFORE the action
-   (ORunCall, ORunnerRet, OCloserRet, OCloseCall, OParentCancel, OFire), the others AFTER the fact
+   (ORunCall, ORunnerRet, OCloserRet, OCloseCall, OParentCancel, OAdvance), the others AFTER the fact
    (ORunRet, OCloseRet, OAddCloser, OAdd, ORunnerStart, ORunnerSeen, OCloserStart, OFatal), so
    "X is stamped before Y" below is implied by the real order the property talks about.
 
@@ -33,13 +33,14 @@ Inductive obs :=
 | OAddCloser (j : nat) (ok : bool)        (* AddCloser(closer j) returned nil / an error *)
 | OCloserStart (j : nat)                  (* closer j was invoked *)
 | OCloserRet (j : nat) (r : option Z)     (* closer j is about to return r *)
-| OFire                                   (* about to let the grace period elapse (timer armed) *)
+| OAdvance (d : Z)                        (* about to advance the clock by d >= 0 nanoseconds *)
 | OFatal                                  (* the fatal-shutdown action was called *)
 | OAdd (i : nat) (ok : bool).             (* Add(runner i) returned nil / an error *)
 
 Record cfg := mkcfg {
   g_closer : bool;     (* RunnerCloserManager (else: plain RunnerManager) *)
-  g_grace : bool;      (* a grace period is set *)
+  g_grace : option Z;  (* the grace period in nanoseconds (None: not set = infinite; 0 and negative
+                          values are grace periods that elapse at once) *)
   g_nrun : nat;        (* runners 0..g_nrun-1 were given to the constructor *)
   g_ncl : nat          (* closers 0..g_ncl-1 were registered before anything else happened *)
 }.
@@ -59,8 +60,17 @@ Definition close_returned (h : list obs) : bool :=
   existsb (fun o => match o with OCloseRet _ _ => true | _ => false end) h.
 Definition parent_cancelled (h : list obs) : bool :=
   existsb (fun o => match o with OParentCancel => true | _ => false end) h.
-Definition fired (h : list obs) : bool :=
-  existsb (fun o => match o with OFire => true | _ => false end) h.
+Definition no_closer_started (h : list obs) : bool :=
+  negb (existsb (fun o => match o with OCloserStart _ => true | _ => false end) h).
+
+(* by how much the clock was advanced after [started] first held of the history so far *)
+Fixpoint advanced_after (started : list obs -> bool) (h t : list obs) : Z :=
+  match t with
+  | [] => 0%Z
+  | o :: t' =>
+      ((match o with OAdvance d => if started h then d else 0 | _ => 0 end) +
+       advanced_after started (h ++ [o]) t')%Z
+  end.
 Definition fatal_seen (h : list obs) : bool :=
   existsb (fun o => match o with OFatal => true | _ => false end) h.
 
@@ -132,7 +142,8 @@ Definition msetb (a b : list Z) : bool :=
 
 Definition obs_okb (g : cfg) (h : list obs) (o : obs) : bool :=
   match o with
-  | ORunCall _ | OParentCancel | OCloseCall _ | OFire => true
+  | ORunCall _ | OParentCancel | OCloseCall _ => true
+  | OAdvance d => (0 <=? d)%Z
   | ORunnerStart i =>
       (* only by Run, each runner at most once, only accepted runners, never after a Close returned *)
       run_called h && negb (memn i (runner_starts h)) && memn i (known_runners g h) &&
@@ -150,7 +161,13 @@ Definition obs_okb (g : cfg) (h : list obs) (o : obs) : bool :=
   | OCloserRet j _ => memn j (closer_starts h)
   | OFatal =>
       (* only when the grace period has elapsed, and once *)
-      g_grace g && fired h && negb (fatal_seen h)
+      (* generous reading of "elapsed": counted from the moment the last runner was about to
+         return (the timer is created after that) *)
+      match g_grace g with
+      | Some d => (d <=? advanced_after (fun p => run_called p && all_runners_returned g p) [] h)%Z &&
+                  run_called h && all_runners_returned g h
+      | None => false
+      end && negb (fatal_seen h)
   | ORunRet k errs =>
       if rejected errs
       then (* only a manager that was started or closed before refuses to run *)
@@ -182,15 +199,22 @@ Definition run_returned (k : nat) (t : list obs) : bool :=
 Definition close_returned_c (c : nat) (t : list obs) : bool :=
   existsb (fun o => match o with OCloseRet c' _ => (c' =? c)%nat | _ => false end) t.
 
-(* the grace period elapsed while a registered closer had not even been told to return (so the
-   closers certainly outlasted it) *)
+(* the grace period elapsed - the clock advanced by at least that much after the closers had
+   started; at once for a period of 0 or less, as soon as the clock is touched - while a
+   registered closer had not even been told to return (so the closers certainly outlasted it) *)
 Fixpoint fatal_required (g : cfg) (h t : list obs) : bool :=
   match t with
   | [] => false
   | o :: t' =>
       (match o with
-       | OFire => g_grace g && negb (match closer_starts h with [] => true | _ => false end) &&
-                  negb (all_closers_returned g h) && negb (run_completed h)
+       | OAdvance _ =>
+           (* strict reading: counted from the first closer's start (the harness advances the clock
+              during shutdown only once the timer exists) and including this advance *)
+           match g_grace g with
+           | Some d => (d <=? advanced_after (fun p => negb (no_closer_started p)) [] (h ++ [o]))%Z
+           | None => false
+           end &&
+           negb (no_closer_started h) && negb (all_closers_returned g h) && negb (run_completed h)
        | _ => false
        end) || fatal_required g (h ++ [o]) t'
   end.
